@@ -62,11 +62,13 @@ def main():
                 ctx.violation("model no longer builds against the regenerated Gen", {"broken": run_targets}, has_input=False)
         core.write_evidence(ctx, getattr(mod, "TRUSTED", None))
         rc = 0
-        for what, path in ctx.violations:
+        for what, path in ctx.violations[:5]:
             print(f"VIOLATION property={prop} replay={path}")
             rc = 1
+        if len(ctx.violations) > 5:
+            print(f"[{prop}] ... and {len(ctx.violations) - 5} more violations (replay files under build/replay/)")
         if not ctx.violations:
-            for what, path in ctx.unexplained:
+            for what, path in ctx.unexplained[:5]:
                 print(f"VIOLATION property={prop} replay={path} no-failing-input-found")
                 rc = 1
         print(f"[{prop}] tier={tier} seed={seed} evaluations={ctx.coverage['evaluations']} "
